@@ -92,7 +92,8 @@ enum {
 	FK_ERRNO,       /* the matching call fails with .err */
 	FK_CONCURRENT,  /* before the matching call run the scripted change .action on .apath */
 	FK_SIGNAL,      /* raise(.err) before the matching call */
-	FK_SHORT        /* the matching read returns fewer bytes */
+	FK_SHORT,       /* the matching read returns fewer bytes */
+	FK_CORRUPT      /* the matching write reports success but stores one altered byte (silent write corruption) */
 };
 
 /* actions of FK_CONCURRENT */
